@@ -94,6 +94,7 @@ def strategy(tier):
     return st.fixed_dictionaries({
         "validator": st.sampled_from(["ident", "coerce", "reject", "reject", "trait", "strict"]),
         "init": st.lists(st.integers(0, 4), max_size=4),
+        "oneshot": st.booleans(),
         "ops": st.lists(OP, min_size=1, max_size=14),
     })
 
@@ -219,6 +220,12 @@ def run(case, ctx):
     else:
         holder, obs = None, None
         ts = TraitSet([str(i) for i in case["init"]] if vname == "strict" else case["init"], item_validator=val)
+    if case.get("oneshot") and holder is None:
+        # a notifier AHEAD of the recording one that takes itself off the list when it is first called
+        def one_shot(t, removed, added):
+            t.notifiers.remove(one_shot)
+        ts.notifiers.append(one_shot)
+        ctx.label("one-shot-notifier-ahead")
     ts.notifiers.append(rec)
     model = set(case["init"])
     interesting = False
